@@ -200,17 +200,17 @@ for _uc, _nm in ((0, "malloc"), (1, "calloc")):
 
 # ------------------------------------------------------------------------------------------------ protocol scenarios (cJSON model)
 _PROTO_UNITS = ["src/peer.c", "model/wrap/element_abs.c", "src/fetch.c", "model/wrap/table_abs.c", "src/response.c", "model/wrap/router_abs.c", "src/timer.c",
-                "src/groups.c", "src/jet_string.c", "src/linux/jet_string.c", "src/parse.c", "src/config.c", "src/info.c",
+                "src/groups.c", "src/jet_string.c", "src/linux/jet_string.c", "src/posix/jet_string.c", "src/parse.c", "src/config.c", "src/info.c",
                 "src/authenticate.c"]
-_SCN_STUBS = ["cJSON: bounded model (model/cjson_model.c): one heap object per node/string, case-insensitive GetObjectItem, no text rendering",
+_SCN_STUBS = ["strcasecmp/strncasecmp/strstr/strcasestr: reference implementations (model/strfn_ref.c)", "cJSON: bounded model (model/cjson_model.c): one heap object per node/string, case-insensitive GetObjectItem, no text rendering",
               "cjet_malloc/cjet_calloc/cjet_free: typed stub over malloc with live-block counter and k-th-allocation failure injection",
               "transport: peer->send_message records the JSON tree being sent; symbolic failing peer / failing send index",
               "cjet_timer_init/destroy/start/cancel: timer model (created/armed/destroyed ghost state)",
               "log_err/log_peer_err/...: empty", "credentials_ok/change_password: not part of these scenarios (return NULL)"]
-_scn = dict(units=_PROTO_UNITS, model=["model/cjson_model.c", "model/alloc_stub.c"], include=["model/alloc_macros.h"],
+_scn = dict(units=_PROTO_UNITS, model=["model/cjson_model.c", "model/alloc_stub.c", "model/strfn_ref.c"], include=["model/alloc_macros.h"],
             unit_defines={"src/peer.c": ["log_peer_err=real_log_peer_err", "log_peer_info=real_log_peer_info"]},
             unwind=6, unwindset={"find_closer_entry_route_table.0": 1, "find_closer_entry_route_table.1": 1,
-                                 "find_closer_entry_element_table.0": 1, "find_closer_entry_element_table.1": 1, "create_matcher.0": 8, "hash_func_route_table_string.0": 20, "hash_func_element_table_string.0": 8, "strlen.0": 74, "dupstr.0": 74, "ci_eq.0": 24, "strcmp.0": 24, "strncmp.0": 24, "strncpy.0": 74, "cpystr.0": 22},
+                                 "find_closer_entry_element_table.0": 1, "find_closer_entry_element_table.1": 1, "create_matcher.0": 8, "strcasecmp.0": 8, "strncasecmp.0": 8, "v_prefix.0": 8, "strstr.0": 8, "strcasestr.0": 8, "hash_func_route_table_string.0": 20, "hash_func_element_table_string.0": 8, "strlen.0": 74, "dupstr.0": 74, "ci_eq.0": 24, "strcmp.0": 24, "strncmp.0": 24, "strncpy.0": 74, "cpystr.0": 22},
             flags=["--max-field-sensitivity-array-size", "256"],
             stubs=_SCN_STUBS, config={"CONFIG_ELEMENT_TABLE_ORDER": 2, "CONFIG_ROUTING_TABLE_ORDER": 2, "CONFIG_INITIAL_FETCH_TABLE_SIZE": 2},
             timeout={"quick": 900, "thorough": 3600})
@@ -285,3 +285,184 @@ for _f, _nm, _rch in ((0, "none", ["no_fault"]), (1, "owner_send_fails", ["owner
       symbolic="set value", assumes=["set-up succeeds"], bounds="skeleton: O add 's'; A set with fault '%s'; remaining timers fire" % _nm, **_scn_route)
 O(id="C03.limit", props=["C03", "C07"], entry="harness_limit", reach=["refused_at_limit"], functions=_RF, symbolic="set value",
   assumes=["set-up succeeds"], bounds="five sets in flight to one owner, routing table order 2 (4 slots)", **dict(_scn_route, unwind=8))
+
+# ------------------------------------------------------------------------------------------------ C16 matchers
+PROPERTY_NOTES["C16"] = {
+    "composition": "match: each of the twelve match functions equals a byte-wise reference predicate for all paths and operands of "
+                   "<= 3 bytes over the full byte range (ASCII case folding only for A-Z/a-z). conjunction: state_matches is the "
+                   "AND of the installed matchers, and a fetch without rule selects everything. rule parsing (which matcher "
+                   "name/operand type installs which function, refusals, repeated option key) is checked on the real "
+                   "create_fetch through the dispatcher in the C16.rule_* scenario obligations.",
+    "outside": "strings longer than 3 bytes; glibc's own strcasecmp/strcasestr/strstr (reference implementations stand in for "
+               "them: the obligation checks cjet's use of them - argument order, length arithmetic); locales other than \"C\".",
+}
+O(id="C16.match_functions", props=["C16"], harness="harness/c16_match.c", entry="harness_match", reach=["long_path"], unwind=6,
+  functions=["equals_match", "equalsnot_match", "startswith_match", "endswith_match", "contains_match", "containsallof_match", "and the six *_ignore_case variants"],
+  symbolic="path, operand and second operand: each 0..3 arbitrary non-NUL bytes",
+  stubs=["strlen/strcmp/strncmp/strstr/strcasecmp/strncasecmp/strcasestr: reference implementations (C locale)"],
+  assumes=[], bounds="strings <= 3 bytes", timeout={"quick": 900, "thorough": 3600}, flags=["--no-bounds-check"])
+O(id="C16.conjunction", props=["C16"], harness="harness/c16_match.c", entry="harness_conjunction", reach=["fetch_all"], unwind=5,
+  functions=["state_matches"], symbolic="number of matchers 1..3, verdict of each matcher, fetch-all marker",
+  stubs=["match functions: return symbolic verdicts"], assumes=["a fetch without rule has one empty matcher slot (alloc_fetch(…, 1, …))"], bounds="<= 3 matchers", flags=["--no-bounds-check"])
+_scn_rule = dict(_scn, harness="harness/scn_rule.c", flags=_scn["flags"] + ["--no-bounds-check"])
+_RULES = [(0, "equals", "a", ["matched"]), (0, "equals", "A", ["not_matched"]), (1, "equals_ci", "A", ["matched"]), (1, "equals_ci", "z", ["not_matched"]),
+          (2, "two_matchers", "a", ["not_matched"]), (3, "unknown_name", "a", ["refused"]), (4, "wrong_type", "a", ["refused"]),
+          (5, "repeated_option", "A", []), (6, "too_many", "a", ["refused"]), (7, "contains_all_of", "a", ["matched"]), (7, "contains_all_of", "z", ["not_matched"]),
+          (8, "equals_not_and_contains", "z", ["matched"]), (8, "equals_not_and_contains", "a", ["not_matched"]), (9, "only_options", "a", [])]
+for _r, _nm, _op, _rch in _RULES:
+    O(id="C16.rule_%s_%s" % (_nm, _op), props=["C16", "C06", "C01"], entry="harness_rule", reach=_rch, defines=["RULE=%d" % _r, "OPCHAR='%s'" % _op],
+      functions=["add_fetch_to_peer", "create_fetch", "add_matchers", "create_matcher", "fill_path_elements", "alloc_fetch", "state_matches", "add_fetch_to_states", "notify_fetchers"],
+      symbolic="state value carried by the events (operand byte '%s' fixed per obligation)" % _op, assumes=["set-up add of 'ab' succeeds"],
+      bounds="skeleton: A add 'ab'; B fetch with rule shape '%s' and operand byte '%s'; A change 'ab'; struct-hack arrays: --no-bounds-check (object bounds still checked)" % (_nm, _op), **_scn_rule)
+
+# ------------------------------------------------------------------------------------------------ websocket.c leaves (C12 C06 C10 C05)
+_ws = dict(harness="harness/ws_leaves.c", units=["src/compression.c", "src/utf8_checker.c", "src/linux/jet_endian.c"], unwind=8,
+           unwindset={"strlen.0": 24, "frame_rules.0": 8, "ws_writev.0": 16, "cjet_is_byte_sequence_valid.0": 8},
+           stubs=["buffered reader of the connection: read_exactly/read_until record (count, callback); writev records the frame (header bytes, payload pointer/length)",
+                  "free_connection: marks the connection released (any later read/write through it is a violation)",
+                  "application callbacks: record invocation, return a symbolic verdict", "http_parser_execute, SHA1*, log_*: inert",
+                  "zlib inflate/deflate: unreachable (compression level 0, as in the daemon)"])
+O(id="C12.frame_rules", props=["C12", "C06"], entry="harness_frame_rules",
+  reach=["rsv", "big_control", "ping", "close_ok", "stray_continuation", "continuation", "text", "first_fragment"],
+  functions=["ws_handle_frame", "handle_error", "websocket_close", "is_status_code_invalid", "send_frame", "text_received_comp", "text_frame_received_comp", "binary_received_comp", "binary_frame_received_comp"],
+  symbolic="FIN, RSV (0..7), opcode (0..15), fragmentation state (in progress, text/binary), payload length 0..6 or 126, payload bytes, application callback verdict",
+  assumes=["fragmentation state is consistent (is_fragmented <=> frag_opcode in {text,binary}): established by websocket_init and preserved (C12.fragmentation_* labels)"],
+  bounds="payload <= 6 bytes (exact-size heap object) or the abstract length 126 for the control-frame limit", **_ws)
+O(id="C06.ws_daemon_callbacks", props=["C06", "C12"], entry="harness_daemon_callbacks", reach=["daemon_fragment", "binary_unsupported", "text"],
+  functions=["ws_handle_frame (callback set of websocket_peer.c: text_message, close, pong)"],
+  symbolic="as C12.frame_rules", assumes=["as C12.frame_rules"], bounds="as C12.frame_rules", **_ws)
+O(id="C12.header_machine", props=["C12", "C09"], entry="harness_header_machine", reach=["len16", "len64", "masked_short"],
+  functions=["ws_get_header", "ws_get_first_length", "read_mask_or_payload", "ws_get_payload"], symbolic="both header bytes (all 65536)", assumes=[], bounds="none", **_ws)
+O(id="C12.ext_length", props=["C12", "C09"], entry="harness_ext_length", reach=["payload_requested"],
+  functions=["ws_get_length16", "ws_get_length64", "ws_get_mask"], symbolic="8 length bytes, 16/64-bit form, 4 mask bytes", assumes=[], bounds="none", **dict(_ws, unwind=10))
+O(id="C05.ws_header_eof", props=["C05", "C12"], entry="harness_header_eof",
+  functions=["ws_get_header", "ws_get_first_length", "ws_get_length16", "ws_get_length64", "ws_get_mask", "ws_get_payload"],
+  symbolic="the frame phase in which the peer's FIN arrives", assumes=[], bounds="none", **_ws)
+O(id="C12.payload_step", props=["C12"], entry="harness_payload_step", reach=["unmasked"],
+  functions=["ws_get_payload", "unmask_payload", "ws_handle_frame"], symbolic="mask bit, mask, 3 payload bytes", assumes=[], bounds="3-byte text frame", **_ws)
+for _off in range(8):
+    O(id="C12.unmask_off%d" % _off, props=["C12", "C06"], entry="harness_unmask", reach=["word_path"], defines=["AOFF=%d" % _off, "ULEN=24"],
+      functions=["unmask_payload"], symbolic="payload bytes, length 0..24, mask, observed index; exact-size heap object at alignment %d" % _off,
+      assumes=[], bounds="length <= 24 (up to three 64-bit words + pre/post bytes at every alignment); alignment enumerated over eight obligations",
+      **dict(_ws, unwind=6, unwindset={"unmask_payload.0": 9, "unmask_payload.1": 10, "unmask_payload.2": 9, "unmask_payload.3": 5, "unmask_payload.4": 9}))
+O(id="C12.send_frame", props=["C12", "C10"], entry="harness_send_frame", reach=["len16", "len64"],
+  functions=["send_frame"], symbolic="payload length 0..2^32-1, opcode in {text, binary, ping, pong}", assumes=[], bounds="payload abstract (pointer identity)", **dict(_ws, unwind=16))
+O(id="C12.close_frame", props=["C12"], entry="harness_close_frame", functions=["websocket_close", "websocket_send_close_frame"],
+  symbolic="status code 1000..4999", assumes=[], bounds="none", **dict(_ws, unwind=16))
+
+# ================================================================================================ per-property notes (evidence + manifest)
+_BMC = ("Bounded model checking with CBMC of the real functions the property's anchors name: every listed assertion is decided by the SAT/SMT "
+        "back end for all values of the symbolic variables inside the stated bounds (unwinding assertions on), each obligation carries "
+        "reachability witnesses that must fail, and a counterexample is only reported after it reproduced in a native ASan/UBSan build "
+        "of the same harness and sources. This is the right level because the property quantifies over inputs/faults/histories that "
+        "tests can only sample, while the mechanisms are bounded integer/pointer/state-machine code; it is NOT a proof of the whole-system "
+        "statement: the composition of obligations is a prose argument (level_note).")
+PROPERTY_NOTES.setdefault("C17", {}); PROPERTY_NOTES.setdefault("C18", {}); PROPERTY_NOTES.setdefault("C16", {})
+PROPERTY_NOTES.update({
+ "C01": {"composition": "Subscription invariant J: fetch f is in element e's fetcher table exactly once iff f matches e.path and has access. "
+         "add_notify / change_by_* / remove_by_* / fetch_order_* / C16.rule_* run each protocol step (add, change, remove, fetch, unfetch) "
+         "from a concrete small state with symbolic values and symbolic failing subscriber and check: exactly one add/change/remove event "
+         "per subscribed fetch with the current value and the fetch id, none for refused or foreign requests, none after unfetch, adds "
+         "before the fetch response, no add for an element that does not come to exist. Each step re-establishes J, so the replica is "
+         "exact at every quiescent point by induction over the history.",
+         "outside": "more than 3 peers / 1 element / 2 fetches per skeleton; both transports (the transport is a recording stub); interleavings with "
+         "disconnects (teardown steps are C05/C03 obligations); get; fetch table growth beyond the initial size."},
+ "C02": {"composition": "Every message goes through the real parse_message -> parse_json_rpc -> handle_method -> send_response chain: "
+         "id_echo_* (every numeric id incl. fractional/out-of-int-range, every string first byte; success, unknown method and error paths), "
+         "no_answer_* (notifications, failing notifications, stray result/error objects, malformed objects), batch_order (4-member batch "
+         "processed sequentially, one response each, in order), response_ownership_* (an overwritten error response is not leaked). "
+         "The scenario obligations of C01/C03/C16 additionally assert 'exactly one response to the requester, result xor error' on every handler they drive.",
+         "outside": "the JSON text level (parsing/rendering is the third-party library, replaced by a tree model); ids of other JSON types "
+         "(object/array/bool/null ids are refused by create_common_response: not driven); batches longer than 4."},
+ "C03": {"composition": "reply_*: a routed set is delivered once to the owner only with path and value unchanged under a fresh id, forged ids and "
+         "replies from other peers are ignored, the owner's result/error payload reaches the caller exactly once under the caller's id, a "
+         "duplicate reply is discarded; C14.timeout: expiry answers once, late reply discarded; owner_leaves: shutdown error once, id-less "
+         "caller gets nothing; bystander_*: a third peer's disconnect (idle or with its own request in flight) does not change A's outcome; "
+         "route_fault_*: owner's send failing / timer creation or start failing give exactly one error answer and leave nothing registered; "
+         "limit: beyond the table the request is refused immediately, routed ids differ. C17 (string tables) gives the map semantics of the routing index.",
+         "outside": "routing table order 2 only; one owner; call (methods) shares set's code path except argument naming (not driven separately); "
+         "real timers (timer model: created/armed/fired/destroyed); ids as text (snprintf stand-in for the two formats)."},
+ "C04": {"composition": "The path index is an exact finite map (C17, string tables, shared obligations). add_notify: add succeeds iff the element "
+         "now exists, refused when the index refuses; change_by_*/remove_by_*: only the owner may change/remove, a refused request or one "
+         "answered with an error leaves the element and its value unchanged, the owner's request takes effect even if a subscriber cannot "
+         "be notified. C03 obligations cover the set/call type and routing checks' outcomes for states.",
+         "outside": "arbitrary path strings (paths are short constants; the table hash is abstracted, collisions are C17's subject); "
+         "set on methods / call on states / fetch-only refusal are simple guards read but not driven; get."},
+ "C05": {"composition": "read_after_close_*: once a read callback or the error callback released the socket object, the read loop does not touch it "
+         "(heap object really freed; every entry point; arbitrary buffer state). ws_header_eof: a FIN in any WebSocket frame phase closes with "
+         "1001 and releases the connection once; ws obligations assert no read/write after release. owner_leaves / caller_leaves / bystander_*: "
+         "free_peer_resources removes owned elements, answers routed callers with an error, purges the leaving peer's own requests from other "
+         "tables, leaves other peers' requests alone, destroys timers, and nothing is sent through a released transport (dead_peer check). "
+         "fresh_peer_groups: peer count and list back to baseline.",
+         "outside": "the WebSocket teardown order (connection freed before the peer bookkeeping, websocket.c handle_error/websocket_close + "
+         "websocket_peer.c) is NOT covered by an obligation yet: known risk F-C05a in DESIGN.md; HTTP-phase ends; buffered output at close."},
+ "C06": {"composition": "Memory-safety obligations: CBMC's pointer/bounds/deallocated-object checks over the real parsers and state machines with "
+         "symbolic input in exact-size heap objects: reader steps (read_exact/read_until), log_line (client-chosen peer name), ws frame rules "
+         "with the daemon's callback set (no unset callback is ever called), unmask at all alignments, rule parsing with repeated option keys, "
+         "timeout values of any magnitude (no undefined float-to-integer conversion).",
+         "outside": "the third-party JSON parser (cJSON.c) and http_parser.c on raw bytes (not encoded: recursion/2.5 kLOC state machine); "
+         "the JSON text contract of parse_message (string API on a non-terminated buffer, see DESIGN.md F-C09a); linux_io.c beyond its leaves."},
+ "C07": {"composition": "alloc_cap_*: accounting never exceeds the cap and free returns exactly what was accounted (one step from any accounted total). "
+         "fd_hygiene_*: on every set-up failure combination the accepted descriptor is closed exactly once, on success it is owned and open. "
+         "timer_lifecycle: timerfd closed and deregistered on destroy and when init fails, loop add/remove receive the loop object. "
+         "Routing scenarios: every request timer is destroyed on reply, timeout, both disconnect directions, set-up failure and at the limit; "
+         "routing records released. C02 scenarios: request and response objects released after each request.",
+         "outside": "SIGTERM shutdown of the assembled daemon; HTTP connections that never upgraded; descriptor table of the real process."},
+ "C08": {"composition": "fresh_peer_groups: a new peer holds no groups whatever the allocator handed out. origin: loopback v4/v6/mapped-v4 and "
+         "AF_UNIX are local, everything else is not. (auth/group-bit obligations: see C08.* scenario obligations when present.)",
+         "outside": "credential files, authenticate sequences and per-element access checks are not yet driven by an obligation."},
+ "C09": {"composition": "read_exact_step / read_until_step: from ANY buffer state satisfying read_buffer <= read_ptr <= write_ptr <= end, one reader call "
+         "with an arbitrary kernel (any amount, EAGAIN, FIN, error, any bytes) hands out exactly the next n stream bytes (tracked-byte "
+         "technique), loses/duplicates none, keeps the invariant, reports too-much-data iff the request cannot fit; one step from the "
+         "invariant covers every segmentation. header_machine / ext_length: the frame header reads request exactly the RFC 6455 field sizes.",
+         "outside": "M = 3 (quick) / 4 (thorough) byte buffers; equality of full daemon output across segmentations (needs reader x handlers); "
+         "the JSON parser reading beyond the message (string API, DESIGN.md F-C09a); epoll batching."},
+ "C10": {"composition": "writev_step: from any pending buffer, one gathered write of a 2-chunk frame with an arbitrary kernel: accepted frames are "
+         "fully sent-or-queued in order after the old pending bytes; flush_step: writability events conserve bytes and order, report a hard "
+         "error once, never spin; send_frame: one frame = one gathered write with a correct minimal header.",
+         "outside": "W = 4; frames of 2 chunks <= 2 bytes; 'never blocks' in the OS sense; the raw 4-byte length header (socket_peer.c send_message) is read, not driven."},
+ "C11": {"composition": "add_notify / change_by_owner / remove_by_owner: with any one subscriber's send path failing, every other subscriber still gets "
+         "its event exactly once and the requester's operation takes effect and is answered once. accept_errors: every errno accept(2) "
+         "documents as transient keeps the event loop running. writev_step: a failed send never closes the receiving peer. "
+         "route_fault_owner_send_fails / bystander_*: routed requests of other peers are unaffected.",
+         "outside": "relative ('same history with healthy peers') comparison as a 2-safety property; garbage traffic beyond C06/C12."},
+ "C12": {"composition": "header_machine + ext_length + payload_step: the frame header state machine decodes FIN/RSV/opcode/MASK and the three length "
+         "encodings as RFC 6455 5.2 prescribes and refuses unmasked client frames with 1002. frame_rules: for every (FIN, RSV, opcode, "
+         "fragmentation state, length class) the outcome equals the RFC table (deliver / pong with identical payload / close 1002, 1003, 1007 / "
+         "normal close), close codes per 7.4.1. unmask_off*: unmasking is xor with mask[i mod 4] at every alignment, nothing outside the "
+         "payload written. send_frame / close_frame: server frames are FIN, unmasked, minimally length-encoded.",
+         "outside": "the accept digest (SHA-1 over symbolic input: hashing loop, not encoded); upgrade header rules; 'same JSON-RPC behaviour as "
+         "raw transport' (both call parse_message: read, not checked); payloads > 6 bytes except the 125/126 boundary; permessage-deflate."},
+ "C13": {"composition": "read_until_step: request/header lines are delivered exactly up to CRLF, over-long lines end in too-much-data (connection "
+         "closed by the error path); fd_hygiene_http: every set-up failure of an accepted HTTP connection closes the descriptor once.",
+         "outside": "the request-line callback creating the peer before validation (DESIGN.md F-C13a) has no obligation yet; http_parser.c."},
+ "C14": {"composition": "timeout_value: for every double and JSON type the request/element/default precedence, the 1 ms lower bound, the uint64 upper "
+         "bound and the seconds->ns conversion hold (z3 back end); timeout_huge: no undefined conversion; itimerspec_full_range: every 64-bit "
+         "deadline splits into sec/nsec correctly (cvc5 integer encoding); timer_lifecycle: one-shot, cancel reports cancellation; "
+         "C14.timeout / C03.reply_*: default deadline used, expiry answers once, a late reply is discarded, reply cancels and destroys the timer.",
+         "outside": "'no earlier than the deadline' (kernel timerfd semantics); reply and expiry harvested in the same epoll batch (stale event in "
+         "the batch, DESIGN.md F-C14b) has no obligation yet."},
+ "C15": {"composition": "alloc_cap_*: a refused allocation accounts nothing; fresh_peer_groups: a failed peer initialisation leaves no peer behind.",
+         "outside": "single-fault enumeration over the request handlers is not built yet (planned: symbolic k-th allocation failure in the scenario harnesses)."},
+})
+for _p in ("C01", "C02", "C03", "C04", "C05", "C06", "C07", "C08", "C09", "C10", "C11", "C12", "C13", "C14", "C15", "C16", "C17", "C18"):
+    PROPERTY_NOTES[_p]["level_text"] = _BMC
+
+
+# ================================================================================================ assertions that bear on a second property
+def _also(prefix_or_ids, props):
+    for o in OBLIGATIONS:
+        if any(o["id"] == x or o["id"].startswith(x) for x in prefix_or_ids):
+            o["also_for"] = sorted(set(o.get("also_for", []) + props))
+            for p in props:
+                if p not in o["props"]:
+                    o["props"].append(p)
+
+_also(["C09.read_until_step", "C07.fd_hygiene_http"], ["C13"])                 # request/header line reader; HTTP connection set-up
+_also(["C09.read_exact_step", "C09.read_until_step", "C05.read_after_close", "C12.unmask_off", "C12.frame_rules", "C12.header_machine",
+       "C12.ext_length", "C12.payload_step", "C14.timeout_huge", "C16.rule_repeated_option", "C16.rule_only_options"], ["C06"])   # memory safety / UB on hostile input
+_also(["C17.step_put_str_o2", "C17.step_get_str_o2", "C17.step_remove_str_o2"], ["C04", "C03"])   # path index / routing index are string tables
+_also(["C07.alloc_cap_"], ["C15"])
+_also(["C03.bystander_", "C03.route_fault_owner_send_fails"], ["C11"])
+_also(["C12.send_frame"], ["C10"])
+_also(["C05.ws_header_eof"], ["C12"])
